@@ -25,6 +25,9 @@ CLAIMED = {
  'C07': ('M', 'symbolic execution of the MIR of UniqueTable::get_or_create, ZddArena::gc / remap_to_new_table and both ZDD iterators on a bounded concrete unique table with symbolic contents (Vec + hash-index models) into Z3, plus bounded model-side lemmas (canonicity, decomposition) linking the table to the family abstraction of C06; native probes for replay',
          'Solver-decided on every table of <= 3-4 symbolic nodes satisfying the representation invariant: get_or_create zero-suppresses, returns the existing id for an existing triple, otherwise appends exactly one indexed node and preserves the invariant; gc remap rebuilds a reduced, ordered, duplicate-free and fully indexed table whose refs denote the same families, gc empties every cache and installs the new table; both iterators, driven to exhaustion from any root, emit strictly ascending vectors, no set twice, and exactly the denoted family. Lemmas (<= 6 nodes, 4-5 variables): distinct ids denote distinct non-terminal families (same family => same root) and (var, lo, hi) is the decomposition at the smallest variable.',
          'Trusted: MIR dump + executor, container models, the hash-index model (get finds an id iff that id stores the triple; inserts are recorded and checked against the stored nodes), Z3. Outside: SharedArena locking, tables above the bounds (the C06 step obligations hold for all families over <= 5-6 variables given this invariant).', 'DESIGN.md §4 C07'),
+ 'C10': ('M', 'symbolic execution of the MIR of fold_binary / fold_unary (varpulis-parser) on symbolic operands, followed by symbolic execution of the real evaluator (eval_expr_with_functions, varpulis-runtime) on both the original and the folded expression against the same symbolic event; Z3 decides agreement on every pair of paths; native replay through fold_program + eval_filter_expr',
+         'Solver-decided for every operator, operands each an integer literal (any i64), a float literal (any f64) or a field reference, and an event where the field is missing or holds a value of any type: the folded expression evaluates to the same value (Value::eq) or the same absence of a value, and folding does not panic. Disagreements are keyed by (operator, operand kinds, type class of the field); the identity rewrites pinned by the optimizer tests are recorded as known findings.',
+         'Depth 1 (one operator over literal/field operands); Pow exponents bounded to 0..6 with exact models of wrapping_pow and of compiler-rt __powidf2; strings/arrays/maps opaque. Outside: deeper nesting (fold_expr recursion), fold_program traversal of statements/stream ops. Trusted: MIR dumps, executor, models listed in evidence.', 'DESIGN.md §4 C10'),
  'C12': ('M', 'symbolic execution of the MIR of CountWindow / TumblingWindow / SessionWindow add_shared, advance_watermark and flush_shared (ColumnarBuffer inlined, VecDeque/Vec/iterator models with closures executed from MIR) into Z3; one inductive step from an arbitrary valid window state with the buffer length enumerated; bounded differential native replay',
          'Solver-decided step obligations for every buffer of 0..3 (quick) / 0..5 (thorough) symbolic events, every count 1..K+1, every duration/gap/timestamp in range: emitted ++ buffer == old buffer ++ [event] in arrival order (nothing lost or duplicated), a count window closes with exactly its size, tumbling windows hold only events earlier than first event + duration (ties at exactly start+duration close), session gaps within `gap` (gap exactly equal stays), watermark closes exactly at the documented condition; window invariants are preserved, so the step covers histories of any length.',
          'Trusted: MIR dumps (both printers), executor, container models (vlib/containers.py), chrono time arithmetic as 64-bit nanoseconds. Outside: Partitioned* wrappers, checkpoint/restore, flush_columnar, zero-length tumbling windows, engine/pipeline plumbing; time conditions are claimed for in-order arrivals (with ties), partition obligations for any order.', 'DESIGN.md §4 C12/C13'),
